@@ -28,6 +28,7 @@ fn dispatch(id: &str, ctx: &Ctx) -> Option<Report> {
         "C14" => mon::c14::run(ctx),
         "C07" => mon::c07::run(ctx),
         "C11" => mon::c11::run(ctx),
+        "C15" => mon::c15::run(ctx),
         _ => return None,
     })
 }
